@@ -44,6 +44,10 @@ func jsonValidTag(s string) bool {
 // (nil entries in the result index = dropped), or ok=false for shapes the model
 // does not cover (embedded fields).
 func (p *Path) jsonFields(st *types.Struct) []*jsonField {
+	tagKey := p.codecTag
+	if tagKey == "" {
+		tagKey = "json"
+	}
 	var cand []*jsonField
 	for i := 0; i < st.NumFields(); i++ {
 		f := st.Field(i)
@@ -53,7 +57,10 @@ func (p *Path) jsonFields(st *types.Struct) []*jsonField {
 		if !f.Exported() {
 			continue
 		}
-		tag, hasTag := reflect.StructTag(st.Tag(i)).Lookup("json")
+		tag, hasTag := reflect.StructTag(st.Tag(i)).Lookup(tagKey)
+		if !hasTag && tagKey != "json" {
+			tag, hasTag = reflect.StructTag(st.Tag(i)).Lookup("json") // fxamacker/cbor falls back to the json tag
+		}
 		if tag == "-" {
 			continue
 		}
@@ -482,6 +489,14 @@ func ifacePtr(p *Path, v Value, what string) (*PtrV, types.Type) {
 }
 
 func init() {
+	// vf.CBORCopy(dst, src any) bool: the same model with `cbor:"..."` struct tags (fxamacker/cbor applies
+	// encoding/json's field rules to its own tag, falling back to the json tag): what a message
+	// struct looks like after Marshal + Unmarshal. toarray / keyasint options are not modelled.
+	intrinsics[vfPkg+".CBORCopy"] = func(p *Path, fn *ssa.Function, args []Value) Value {
+		p.codecTag = "cbor"
+		defer func() { p.codecTag = "" }()
+		return intrinsics[vfPkg+".JSONCopy"](p, fn, args)
+	}
 	intrinsics[vfPkg+".FillAny"] = func(p *Path, fn *ssa.Function, args []Value) Value {
 		if p.guard != nil {
 			panic(mergeAbort{"vf.FillAny in merge region"})
